@@ -329,10 +329,12 @@ def itercutout(h):
         o = out_row(pre, 0)
         q, i, p = smt.fresh_int('q'), smt.fresh_int('i'), smt.fresh_int('p')
         cut = lambda ii: z3.Exists([p], z3.And(0 <= p, p < out_ix.len, idx(out_ix, p) == ii))
-        ctx.oblige('itercutout: the kept positions are exactly the header positions that were not selected, in their original order',
-                   z3.And(z3.ForAll([q], z3.Implies(z3.And(0 <= q, q < indices.len), z3.And(0 <= idx(indices, q), idx(indices, q) < hdr.len, z3.Not(cut(idx(indices, q)))))),
-                          z3.ForAll([q], z3.Implies(z3.And(0 <= q, q + 1 < indices.len), idx(indices, q) < idx(indices, q + 1))),
-                          z3.ForAll([i], z3.Implies(z3.And(0 <= i, i < hdr.len, z3.Not(cut(i))), z3.Exists([q], z3.And(0 <= q, q < indices.len, idx(indices, q) == i))))))
+        ctx.oblige('itercutout: the kept positions are header positions that were not selected',
+                   z3.ForAll([q], z3.Implies(z3.And(0 <= q, q < indices.len), z3.And(0 <= idx(indices, q), idx(indices, q) < hdr.len, z3.Not(cut(idx(indices, q)))))))
+        ctx.oblige('itercutout: the kept positions are in their original order',
+                   z3.ForAll([q], z3.Implies(z3.And(0 <= q, q + 1 < indices.len), idx(indices, q) < idx(indices, q + 1))))
+        ctx.oblige('itercutout: every header position that was not selected is kept',
+                   z3.ForAll([i], z3.Implies(z3.And(0 <= i, i < hdr.len, z3.Not(cut(i))), z3.Exists([q], z3.And(0 <= q, q < indices.len, idx(indices, q) == i)))), solver='cvc5')
         ctx.oblige('itercutout: the header is emitted first, once: the kept fields',
                    z3.And(pre.len == 1, o.len == indices.len, res.out.len == 0,
                           z3.ForAll([q], z3.Implies(z3.And(0 <= q, q < indices.len), z3.Select(o.arr, q) == z3.Select(hdr.arr, idx(indices, q))))))
